@@ -115,6 +115,21 @@ impl ContinuousCDF<f64, f64> for Dirac {
             0.0
         }
     }
+
+    /// Calculates the inverse cumulative distribution function for the
+    /// dirac distribution at `p`
+    ///
+    /// All the mass sits at `v`, so every quantile is `v`.
+    ///
+    /// # Panics
+    ///
+    /// If `p < 0.0` or `p > 1.0`
+    fn inverse_cdf(&self, p: f64) -> f64 {
+        if !(0.0..=1.0).contains(&p) {
+            panic!("p must be in [0, 1]");
+        }
+        self.0
+    }
 }
 
 impl Min<f64> for Dirac {
